@@ -506,6 +506,8 @@ def account(ctx, sc, results):
 
 def run(ctx):
     rng = ctx.rng
+    from props import cli_proc
+    cli_proc.stream(ctx, ['C05'])
     for sc, runs in corpus():
         account(ctx, sc, exec_scenario(ctx, sc, runs))
     # bit flips at the block-read boundaries of generate_hashes (65536-byte reads), size and mtime restored
@@ -533,6 +535,9 @@ def run(ctx):
 
 
 def replay_case(ctx, case):
+    if case.get('kind') == 'cli-process':
+        from props import cli_proc
+        return cli_proc.replay(case)
     sc = {k: v for k, v in case.items() if k != 'run'}
     r = exec_scenario(ctx, sc, [case['run']])[0]
     return {'holds': r['holds'], 'model_agrees': r['agree'], 'property_expects': r['expected'], 'why': r.get('why'),
@@ -540,6 +545,8 @@ def replay_case(ctx, case):
 
 
 def classify(case, detail):
+    if case.get('kind') == 'cli-process':
+        return None
     run = case.get('run', {})
     if run.get('single') and '/' in run['single']:
         return 'C05-single-file-below-root'
@@ -547,6 +554,8 @@ def classify(case, detail):
 
 
 def shrink(ctx, case):
+    if case.get('kind') == 'cli-process':
+        return case
     def bad(c):
         try:
             return not replay_case(ctx, c)['holds'] and classify(c, None) == classify(case, None)
